@@ -50,10 +50,17 @@ def shards(ctx, exe, name, lines, extra=()):
         p = os.path.join(ctx.workdir, "%s.%d.cases" % (name, k))
         with open(p, "w") as f:
             f.write("\n".join(part) + ("\n" if part else ""))
-        procs.append((k, len(part), subprocess.Popen([exe] + list(extra) + [p], stdout=subprocess.PIPE, stderr=subprocess.DEVNULL)))
+        # (output goes to a file, not a pipe: the lines are long and a full pipe would serialise the shards)
+        po = p + ".out"
+        fo = open(po, "wb")
+        procs.append((k, len(part), subprocess.Popen([exe] + list(extra) + [p], stdout=fo, stderr=subprocess.DEVNULL), fo, po))
     out = [None] * len(lines)
-    for k, cnt, pr in procs:
-        o = pr.communicate()[0].decode("utf-8", "replace").split("\n")
+    for k, cnt, pr, fo, po in procs:
+        pr.wait()
+        fo.close()
+        with open(po, "rb") as f:
+            o = f.read().decode("utf-8", "replace").split("\n")
+        os.remove(po)
         for i in range(cnt):
             out[k + i * n] = o[i] if i < len(o) else "<missing>"
     return out
@@ -804,7 +811,11 @@ def run_batch(ctx, cases, cpp, mdl, names, stats, tag):
                 ml_index.append(i)
             except Exception as e:      # glue failure: counted, never silent
                 stats["glue_errors"] += 1
+    if tag != "shrink":
+        ctx.log("library driver done (%d cases)" % len(cases))
     ml_out = shards(ctx, mdl, tag + "_ml", ml_in)
+    if tag != "shrink":
+        ctx.log("extracted model done")
     ml_by_case = {}
     for j, i in enumerate(ml_index):
         ml_by_case[i] = ml_out[j]
